@@ -221,6 +221,56 @@ def san_corpora(chk, san):
     return crash
 
 
+def valgrind_corpora(chk):
+    """uninitialised reads: samples of the same corpora executed by the native harness of the NORMAL build under valgrind memcheck
+    (--error-exitcode): one Robust event per batch, and when a batch reports an error, one per session of that batch run alone"""
+    import subprocess, c04, c16, c17, c02, c11, c05, c03
+    quick = chk.tier == "quick"
+    per = 160 if quick else 2500
+    plain = build.Build(variant="plain")
+    try:
+        plain.build(mains=(), harness=("vharness",))
+    except build.BuildError as e:
+        raise checklib.Infra("build failed: " + str(e)[-1500:])
+    exe = plain.exe("vharness")
+    batches = []
+    for name, mod in (("c02", c02), ("c03", c03), ("c05", c05), ("c11", c11), ("c01", c01), ("c04", c04), ("c16", c16), ("c17", c17)):
+        jobs = mod.make_jobs(chk)
+        jobs = chk.rng.sample(jobs, min(per, len(jobs)))
+        for i in range(0, len(jobs), 40):
+            batches.append((name, jobs[i:i + 40]))
+    def vg(lines):
+        try:
+            p = subprocess.run(["valgrind", "-q", "--error-exitcode=68", exe], input=("\n".join(lines) + "\n").encode(), capture_output=True, timeout=900)
+            return p.returncode, p.stderr.decode(errors="replace")
+        except subprocess.TimeoutExpired:
+            return -1, "TIMEOUT"
+    def ev_of(name, ids, rc, err, k):
+        m = re.search(r"==\d+== [A-Z][^\n]*(?:\n==\d+==    [^\n]*){0,6}", err)
+        return {"e": "Robust", "tool": "vharness-valgrind", "cls": "valgrind-" + name, "args": ids[:3] + (["..."] if len(ids) > 3 else []), "build": "plain+valgrind", "stdin": "",
+                "code": rc if rc >= 0 else 255, "sig": 0, "san": rc == 68, "timeout": rc == -1, "tail": (m.group(0)[-900:] if m else err[-300:]) if rc not in (0, 99) else "", "id": "vg%d" % k}
+    def one(k):
+        name, jobs = batches[k]
+        lines = []
+        for j in jobs: lines += j.lines()
+        rc, err = vg(lines)
+        if rc in (0, 99):          # 99: a session crashed the harness - reported by the sanitizer-corpus stage, not here
+            return [ev_of(name, [j.id for j in jobs], 0, "", k)]
+        out = []
+        for n, j in enumerate(jobs):
+            rc1, err1 = vg(j.lines())
+            if rc1 not in (0, 99):
+                out.append(ev_of(name, [j.id], rc1, err1, k * 1000 + n))
+        return out or [ev_of(name, [j.id for j in jobs], rc, err, k)]
+    with cf.ThreadPoolExecutor(max_workers=16) as ex:
+        evs = [e for lst in ex.map(one, range(len(batches))) for e in lst]
+    n = sum(len(b[1]) for b in batches)
+    chk.evaluations += n
+    chk.notes.append("valgrind memcheck: %d sessions of the corpora of C01-C05, C11, C16, C17 in %d batches on the normal build: %d error reports" % (n, len(batches), sum(1 for e in evs if e["san"])))
+    plain.cleanup()
+    return [(RecJob(e["id"], e), [e]) for e in evs]
+
+
 def run(chk):
     quick = chk.tier == "quick"
     chk.mc("MC_Cli", "MC_Cli.cfg")
@@ -246,6 +296,7 @@ def run(chk):
         return (RecJob("rb%d" % i, ev), [ev])
     with cf.ThreadPoolExecutor(max_workers=14) as ex:
         recorded = list(ex.map(do, range(len(cases))))
+    recorded += valgrind_corpora(chk)
     divs = chk.validate_recorded("Trace_Calls", recorded, "c15")
     # attach the full command to each divergence for the known-findings matcher
     byid = {r[0].id: r[0] for r in recorded}
